@@ -27,14 +27,14 @@ func init() { core.Register(prop{}) }
 func (prop) ID() string    { return "C17" }
 func (prop) Level() string { return "exploration" }
 func (prop) Rule() string {
-	return "one run = a real TreeScheduler (real clock, ~4 s) with 1-4 workers and 1-8 tasks (cron specs '@every 1s', '@every 2s', '*/5 * * * * *', offsets -3s..+2s, LastScheduled now / slightly off / up to 40 s in the past so that many occurrences are due at once; half of the tasks built through coordinator.NewSchedulableTask), a recording executor whose latency/failure/panic is controlled by gates, a recording checkpointer, two API actors issuing Schedule / re-Schedule (changed cron, offset, LastScheduled) / Release concurrently. " +
+	return "one run = a real TreeScheduler (real clock, ~4 s) with 1-4 workers and 1-8 tasks (cron specs '@every 1s', '@every 2s', '*/5 * * * * *'; in some runs also '* * * * * * 2020' and '*/2 * * * * * 2020' on a real clock shifted to the last seconds of 2020, so that schedules run out during the run; offsets -3s..+2s, LastScheduled now / slightly off / up to 40 s in the past so that many occurrences are due at once; half of the tasks built through coordinator.NewSchedulableTask), a recording executor whose latency/failure/panic is controlled by gates, a recording checkpointer, two API actors issuing Schedule / re-Schedule (changed cron, offset, LastScheduled) / Release concurrently. " +
 		"Oracle per task and epoch (between two Schedule/Release calls): scheduledFor values are consecutive occurrences after LastScheduled (next == schedule.Next(prev)), strictly increasing; entry time on the scheduler's clock >= scheduledFor+offset; runAt == scheduledFor+offset; executions of one id never overlap; nothing whose due time is later than the time at which Release returned starts after Release returned; checkpoints follow the executions; every API call returns; after the actors stop and the gates open every occurrence due by the final time has run. " +
 		"Non-trivial: a run (by content hash) with >= 10 executions, >= 1 re-Schedule or Release of a task that had already run, and >= 1 catch-up over >= 3 occurrences"
 }
 func (prop) Assumptions() []string {
 	return []string{
 		"the cron library's Next() defines 'consecutive occurrences' (the reference iterates the task's own Schedule)",
-		"API calls for one task id are issued by one actor at a time (epochs are well defined); at most one execution that was already handed to a worker may complete the old epoch after a re-Schedule returned",
+		"API calls for one task id are issued by one actor at a time (epochs are well defined); at most one execution that was already handed to a worker may complete the old epoch after a re-Schedule returned, and none if an execution of that id was in progress at that moment (one id = one worker; a busy worker takes nothing)",
 		"liveness is judged as bounded progress: after the actors stop all gates are opened and the monitor waits until no execution has completed for 600 ms (at most 40 s); a watchdog expiry of the whole case is inconclusive",
 		"the mock clock (WithTime) is not used for the verdict: the scheduler re-arms its timer with a negative duration when the head of the queue is not yet due, which makes benbjohnson/clock's mock time run backwards inside Add(), and the mock's blocking tick deadlocks against the spinning loop; clock jumps are replaced by LastScheduled values in the past",
 	}
@@ -67,6 +67,13 @@ func (prop) Cases(tier string, seed uint64) []core.Case {
 	}
 	for i := 0; i < nreal; i += 2 {
 		cs = append(cs, core.Case{ID: fmt.Sprintf("real-%d", i), Kind: "sched", Seed: seed*821 + uint64(i), N: 2, Params: map[string]interface{}{"real": true}})
+	}
+	nend := 8
+	if tier == "thorough" {
+		nend = 200
+	}
+	for i := 0; i < nend; i += 2 {
+		cs = append(cs, core.Case{ID: fmt.Sprintf("endyear-%d", i), Kind: "sched", Seed: seed*829 + uint64(i), N: 2, Params: map[string]interface{}{"real": true, "endyear": true}})
 	}
 	for i := 0; i < nrace; i += 2 {
 		cs = append(cs, core.Case{ID: fmt.Sprintf("race-%d", i), Kind: "sched", Seed: seed*823 + uint64(i), N: 2, Race: true, Params: map[string]interface{}{"real": true}})
@@ -103,12 +110,35 @@ type world struct {
 	gate    map[scheduler.ID]bool // true = closed
 	fail    map[scheduler.ID]int  // 0 ok, 1 error, 2 panic
 	allOpen bool
+	// the same occurrence of one id handed to the executor again and again (detected online:
+	// such a scheduler never becomes quiet and its executions would fill the memory)
+	lastFor  map[scheduler.ID]time.Time
+	sameRun  map[scheduler.ID]int
+	repeated string
 }
 
 func (w *world) next() int64 { return atomic.AddInt64(&w.seq, 1) }
 
 func (w *world) Execute(ctx context.Context, id scheduler.ID, scheduledFor, runAt time.Time) error {
 	w.mu.Lock()
+	if w.repeated != "" {
+		w.mu.Unlock()
+		return nil
+	}
+	if w.lastFor == nil {
+		w.lastFor, w.sameRun = map[scheduler.ID]time.Time{}, map[scheduler.ID]int{}
+	}
+	if w.lastFor[id].Equal(scheduledFor) {
+		w.sameRun[id]++
+		if w.sameRun[id] >= 200 {
+			w.repeated = fmt.Sprintf("id %d: occurrence %s was handed to the executor %d times in a row", id, scheduledFor.UTC().Format("2006-01-02 15:04:05"), w.sameRun[id]+1)
+			w.cond.Broadcast()
+			w.mu.Unlock()
+			return nil
+		}
+	} else {
+		w.lastFor[id], w.sameRun[id] = scheduledFor, 0
+	}
 	r := &execRec{id: id, scheduledFor: scheduledFor.UTC(), runAt: runAt.UTC(), nowEntry: w.clk.Now().UTC(), seqEntry: w.next()}
 	w.execs = append(w.execs, r)
 	w.running[id]++
@@ -153,10 +183,20 @@ func (s sched) Schedule() scheduler.Schedule { return s.s }
 func (s sched) Offset() time.Duration        { return s.offset }
 func (s sched) LastScheduled() time.Time     { return s.last }
 
-var crons = []string{"@every 1s", "@every 7s", "@every 1m", "*/5 * * * * *", "0 * * * * *", "@every 2s", "*/30 * * * * *", "@every 10s"}
+// (the last two end with the year 2020: used with a clock that is shifted to the last seconds of 2020)
+var crons = []string{"@every 1s", "@every 7s", "@every 1m", "*/5 * * * * *", "0 * * * * *", "@every 2s", "*/30 * * * * *", "@every 10s", "* * * * * * 2020", "*/2 * * * * * 2020"}
 
 // approximate period of each cron (to bound the number of occurrences a clock jump creates)
-var cronPeriod = []time.Duration{time.Second, 7 * time.Second, time.Minute, 5 * time.Second, time.Minute, 2 * time.Second, 30 * time.Second, 10 * time.Second}
+var cronPeriod = []time.Duration{time.Second, 7 * time.Second, time.Minute, 5 * time.Second, time.Minute, 2 * time.Second, 30 * time.Second, 10 * time.Second, time.Second, 2 * time.Second}
+
+// shiftClock is the real clock seen through a constant offset (timers run in real time).
+type shiftClock struct {
+	clock.Clock
+	off time.Duration
+}
+
+func (c shiftClock) Now() time.Time                  { return c.Clock.Now().Add(c.off) }
+func (c shiftClock) Since(t time.Time) time.Duration { return c.Now().Sub(t) }
 
 type epoch struct {
 	id        scheduler.ID
@@ -199,6 +239,13 @@ func runOne(x *core.Ctx, seed uint64, realClock bool) {
 	var clk clock.Clock = mock
 	if realClock {
 		clk = clock.New()
+	}
+	endYear := x.Case.PBool("endyear")
+	if endYear {
+		// the run starts 2-4 s before the schedules that are bounded by the year 2020 run out
+		target := time.Date(2020, 12, 31, 23, 59, 56, 0, time.UTC).Add(time.Duration(r.Intn(2000)) * time.Millisecond)
+		clk = shiftClock{Clock: clock.New(), off: target.Sub(time.Now())}
+		x.Count("runs_over_the_end_of_a_bounded_schedule", 1)
 	}
 	advance := func(d time.Duration) {
 		if realClock {
@@ -270,6 +317,10 @@ func runOne(x *core.Ctx, seed uint64, realClock bool) {
 		if realClock {
 			ci = []int{0, 5, 3, 0}[rr.Intn(4)] // @every 1s, @every 2s, */5s
 			off = time.Duration(rr.Range(-3, 2)) * time.Second
+		}
+		if endYear && rr.Chance(0.6) {
+			ci = 8 + rr.Intn(2)
+			off = time.Duration(rr.Range(-2, 1)) * time.Second
 		}
 		now := clk.Now().UTC()
 		last := []time.Time{now, now.Add(-3 * time.Second), now.Add(-time.Duration(rr.Intn(120)) * time.Second), now.Add(time.Duration(rr.Intn(5)) * time.Second)}[rr.Intn(4)]
@@ -361,7 +412,20 @@ func runOne(x *core.Ctx, seed uint64, realClock bool) {
 					w.mu.Unlock()
 				}
 				logf("a%d schedule %s", ai, desc)
-				if !call("Schedule "+desc, func() error { return s.Schedule(sc) }) {
+				var schedErr error
+				if !call("Schedule "+desc, func() error { schedErr = s.Schedule(sc); return schedErr }) {
+					return
+				}
+				if schedErr != nil {
+					// refused (the schedule has no occurrence left): the call has no effect, what
+					// was scheduled before stays in force
+					logf("a%d schedule id=%d refused: %v", ai, id, schedErr)
+					x.Count("schedule_calls_refused", 1)
+					if cur != nil {
+						emu.Lock()
+						cur.endSeq = 0
+						emu.Unlock()
+					}
 					return
 				}
 				ret := w.next()
@@ -500,10 +564,15 @@ func runOne(x *core.Ctx, seed uint64, realClock bool) {
 		}
 		return n*1000 + len(w.execs)
 	}
+	repeatedNow := func() string {
+		w.mu.Lock()
+		defer w.mu.Unlock()
+		return w.repeated
+	}
 	{
 		last, since := nDone(), time.Now()
 		deadline := time.Now().Add(40 * time.Second)
-		for time.Since(since) < 600*time.Millisecond && time.Now().Before(deadline) {
+		for time.Since(since) < 600*time.Millisecond && time.Now().Before(deadline) && repeatedNow() == "" {
 			time.Sleep(5 * time.Millisecond)
 			if !realClock {
 				mock.Add(0)
@@ -512,6 +581,18 @@ func runOne(x *core.Ctx, seed uint64, realClock bool) {
 				last, since = n, time.Now()
 			}
 		}
+	}
+	if rep := repeatedNow(); rep != "" {
+		x.Violatef("scheduler-duplicate-execution", "one occurrence is executed over and over", name, "%s\ntrace: %s", rep, strings.Join(trace, " ; "))
+		// such a scheduler may not stop either: give it 5 s, then leave it behind
+		sd := make(chan struct{})
+		go func() { s.Stop(); close(sd) }()
+		select {
+		case <-sd:
+		case <-time.After(5 * time.Second):
+		}
+		stopped = true
+		return
 	}
 	done := make(chan struct{})
 	go func() { s.Stop(); close(done) }()
@@ -572,7 +653,16 @@ func runOne(x *core.Ctx, seed uint64, realClock bool) {
 					// item that was already in a worker's hands; a later epoch that explains the
 					// execution equally well is preferred (identical occurrence values are not
 					// distinguishable from outside)
-					if stragglerUsed[ei] {
+					// ... and only an idle worker takes an item: all occurrences of one id go to
+					// the same worker, so while an execution of this id was in progress when the
+					// epoch ended nothing of the old epoch can have been handed over
+					busyAtEnd := false
+					for _, e2 := range list {
+						if e2 != e && e2.seqEntry < ep.endRetSeq && e2.seqExit > ep.endRetSeq {
+							busyAtEnd = true
+						}
+					}
+					if stragglerUsed[ei] || busyAtEnd {
 						matches = false
 					} else {
 						for k := ei + 1; k < len(eps) && e.seqExit > eps[k].issueSeq; k++ {
